@@ -42,6 +42,11 @@ type Event struct {
 	Pos     token.Pos
 	Cond    Term // event happened only if Cond (empty = unconditional)
 	Deep    bool // MayLoop marker standing for a callee's internal events (its may_emit list)
+	// Proven: for a loop marker, per event name the predicates P such that
+	// `all(E, P)` is a declared (and therefore checked) invariant of that loop
+	// and P reads the heap only through old(...): every E the loop emits
+	// satisfies P, now and later.
+	Proven map[string][]string
 }
 
 func (e Event) String() string {
